@@ -1,7 +1,125 @@
 //! wire interfaces of the "misc" area (see docs/AGENT_GUIDE.md for the id range)
+//!
+//! C19 (ids 110-119; 100-109 are left to the C06 package): native recursion depth of the
+//! recursive passes, read from the `marwood::verif_depth` counters.
+//!
+//!   110 cp...            `D parse=<n> <OK|ERR|ERR incomplete>`      parse_text on the text
+//!   111 len cp1.. cp2..  two data (the second may be empty = same as the first):
+//!                        `D put=.. get=.. write=.. mark=.. equal=.. OK`
+//!                        put/get/mark on a standalone Heap, write = Display {:#} of the datum
+//!                        read back, equal = (equal? 'X 'Y) on a fresh Vm
+//!   112 cp...            an expression: `D transform=.. compile=.. ffs=.. <OK|ERR>` for
+//!                        Vm::prepare_eval (transform + compile, not run)
 #![allow(unused_imports, dead_code)]
 use crate::text::*;
+use marwood::cell::Cell;
+use marwood::verif_depth as vd;
+use marwood::vm::heap::Heap;
+use marwood::vm::vcell::VCell;
+use marwood::vm::Vm;
 
-pub fn run(_c: &[String]) -> String {
-    "BADCASE".into()
+fn parse_one(s: &str) -> Result<Cell, String> {
+    match marwood::parse::parse_text(s) {
+        Ok((cell, _)) => Ok(cell),
+        Err(marwood::parse::Error::Incomplete)
+        | Err(marwood::parse::Error::LexError(marwood::lex::Error::Incomplete)) => {
+            Err("ERR incomplete".into())
+        }
+        Err(_) => Err("ERR".into()),
+    }
+}
+
+fn parse_depth_case(s: &str) -> String {
+    vd::reset();
+    let r = parse_one(s);
+    let d = vd::max_depth(vd::PARSE);
+    match r {
+        Ok(_) => format!("D parse={} OK", d),
+        Err(e) => format!("D parse={} {}", d, e),
+    }
+}
+
+fn quote(x: &Cell) -> Cell {
+    Cell::new_list(vec![Cell::new_symbol("quote"), x.clone()])
+}
+
+fn datum_depth_case(c: &[String]) -> String {
+    let n: usize = c[1].parse().unwrap();
+    let s1 = cps(&c[2..2 + n]);
+    let s2 = cps(&c[2 + n..]);
+    let x = match parse_one(&s1) {
+        Ok(x) => x,
+        Err(e) => return e,
+    };
+    let y = if s2.is_empty() {
+        x.clone()
+    } else {
+        match parse_one(&s2) {
+            Ok(y) => y,
+            Err(e) => return e,
+        }
+    };
+    let mut heap = Heap::new(1024);
+    vd::reset();
+    let v = heap.maybe_put_cell(&x);
+    let put = vd::max_depth(vd::PUT_CELL);
+    vd::reset();
+    let back = heap.get_as_cell(&v);
+    let get = vd::max_depth(vd::GET_AS_CELL);
+    vd::reset();
+    let text = format!("{:#}", back);
+    let write = vd::max_depth(vd::DISPLAY);
+    vd::reset();
+    match &v {
+        VCell::Ptr(p) => heap.mark(*p),
+        other => heap.mark_vcell(other),
+    }
+    let mark = vd::max_depth(vd::MARK);
+    let mut vm = Vm::new();
+    let form = Cell::new_list(vec![Cell::new_symbol("equal?"), quote(&x), quote(&y)]);
+    vd::reset();
+    let r = vm.eval(&form);
+    let equal = vd::max_depth(vd::EQUAL);
+    let res = match r {
+        Ok(c) => format!("{:#}", c),
+        Err(_) => "ERR".into(),
+    };
+    format!(
+        "D put={} get={} write={} mark={} equal={} OK {} {}",
+        put,
+        get,
+        write,
+        mark,
+        equal,
+        res,
+        esc(&text)
+    )
+}
+
+fn expr_depth_case(s: &str) -> String {
+    let e = match parse_one(s) {
+        Ok(x) => x,
+        Err(e) => return e,
+    };
+    let mut vm = Vm::new();
+    vd::reset();
+    let r = vm.prepare_eval(&e);
+    let d = vd::max_depths();
+    format!(
+        "D transform={} compile={} ffs={} {}",
+        d[vd::TRANSFORM],
+        d[vd::COMPILE],
+        d[vd::FREE_SYMBOLS],
+        if r.is_ok() { "OK" } else { "ERR" }
+    )
+}
+
+pub fn run(c: &[String]) -> String {
+    let id: u64 = c[0].parse().unwrap_or(0);
+    match id {
+        110 => parse_depth_case(&cps(&c[1..])),
+        111 => datum_depth_case(c),
+        112 => expr_depth_case(&cps(&c[1..])),
+        _ => "BADCASE".into(),
+    }
 }
